@@ -109,6 +109,10 @@ impl<const M: usize> Sim<M> {
             rep.violate(p, format!("{}/fitting-request-failed/{}", p, what), format!("size {} align {} capacity-before {} limit {:?} ({})", size, align, cap_before, self.limit, self.cur));
         }
         rep.bump("ops.alloc_failed");
+        if let Some(before) = self.last_obs.take() {
+            self.check_unchanged_after_failure(rep, &before, what);
+            self.last_obs = Some(before);
+        }
     }
 
     /// alloc_layout / try_alloc_layout; harness fills the block with its pattern.
@@ -928,6 +932,33 @@ impl<const M: usize> Sim<M> {
             self.after_op(rep, OpKind::Probe, &ev2);
             rep.bump("c06.refill_probes");
             self.op_reset(rep, false);
+            // "keeps its allocation limit": the limit is still *enforced* after the reset.  A request
+            // that cannot fit in the kept chunk needs a new chunk at least as large as the request;
+            // if held + request > limit it must be refused.
+            if let (Some(l), 1) = (self.limit, self.chunks.len()) {
+                // the smallest request that cannot be granted: it misses the kept chunk and
+                // held + request exceeds the limit by one byte
+                let r = if l >= usable { (usable + 16).max((l - usable).saturating_add(1)) } else { usable + 16 };
+                if r < (8 << 20) && usable + r > l {
+                    self.cur = format!("limit-still-enforced-after-reset-probe({} under limit {})", r, l);
+                    let before = self.chunks.len();
+                    self.begin();
+                    let res = self.bump.try_alloc_layout(Layout::from_size_align(r, 1).unwrap());
+                    let ev3 = self.end(rep, OpKind::Probe);
+                    if res.is_ok() || self.chunks.len() > before {
+                        rep.violate("C06", "C06/limit-not-enforced-after-reset", format!("held {} limit {} request {} succeeded", usable, l, r));
+                    }
+                    if let Ok(p) = res {
+                        let id = self.next_id;
+                        let exp = pat_bytes(id, r);
+                        if self.register(rep, p.as_ptr(), r, 1, exp.clone(), Some((r, 1)), "limit-probe").is_some() {
+                            unsafe { fill(p.as_ptr(), &exp) };
+                        }
+                    }
+                    self.after_op(rep, OpKind::Probe, &ev3);
+                    rep.bump("c06.limit_enforcement_probes");
+                }
+            }
         }
     }
 
@@ -988,5 +1019,121 @@ impl<const M: usize> Sim<M> {
             lv.exp = pat_bytes(lv.id ^ salt, lv.size);
             unsafe { fill(lv.ptr, &lv.exp) };
         }
+    }
+
+    /// Requests whose total size is unrepresentable or far above anything the (capped) global
+    /// allocator will honour.  Ok is only acceptable if the claimed extent is really held.
+    pub fn op_huge(&mut self, rep: &mut Report, which: u8, n: usize, fallible: bool) -> Outcome {
+        let name = ["alloc_layout", "slice_fill_with<u64>", "slice_fill_copy<u8>", "slice_fill_default<[u8;3]>", "slice_fill_clone<u32>", "slice_copy<()>", "with_capacity", "slice_fill_iter<u64>"][which as usize % 8];
+        self.cur = format!("huge:{}{}(n={:#x})", if fallible { "try_" } else { "" }, name, n);
+        if which % 8 == 6 {
+            let ok = self.reconstruct(rep, Some(n), fallible);
+            if ok && n > (64 << 20) && self.bump.chunk_capacity() < n {
+                rep.violate("C19", "C19/constructor-accepted-impossible-capacity", format!("capacity {:#x} got {}", n, self.bump.chunk_capacity()));
+            }
+            return if ok { Outcome::Ok } else if fallible { Outcome::Err } else { Outcome::Panic };
+        }
+        if which % 8 == 0 && Layout::from_size_align(n, 8).is_err() {
+            // not a request at all: Layout itself refuses the size
+            return Outcome::Err;
+        }
+        let cap_before = self.bump.chunk_capacity();
+        let before = self.observe();
+        self.begin();
+        let b = &*self.bump;
+        // returns (ptr, claimed bytes, elem align)
+        let r = catch_unwind(AssertUnwindSafe(|| -> Option<(usize, usize, usize)> {
+            match (which % 8, fallible) {
+                (0, f) => {
+                    let l = Layout::from_size_align(n, 8).ok()?;
+                    if f {
+                        b.try_alloc_layout(l).ok().map(|p| (p.as_ptr() as usize, n, 8))
+                    } else {
+                        Some((b.alloc_layout(l).as_ptr() as usize, n, 8))
+                    }
+                }
+                (1, false) => Some((b.alloc_slice_fill_with(n, |i| i as u64).as_ptr() as usize, n.wrapping_mul(8), 8)),
+                (1, true) => b.try_alloc_slice_fill_with(n, |i| i as u64).ok().map(|s| (s.as_ptr() as usize, s.len().wrapping_mul(8), 8)),
+                (2, false) => Some((b.alloc_slice_fill_copy(n, 7u8).as_ptr() as usize, n, 1)),
+                (2, true) => b.try_alloc_slice_fill_copy(n, 7u8).ok().map(|s| (s.as_ptr() as usize, s.len(), 1)),
+                (3, false) => Some((b.alloc_slice_fill_default::<[u8; 3]>(n).as_ptr() as usize, n.wrapping_mul(3), 1)),
+                (3, true) => b.try_alloc_slice_fill_default::<[u8; 3]>(n).ok().map(|s| (s.as_ptr() as usize, s.len().wrapping_mul(3), 1)),
+                (4, false) => Some((b.alloc_slice_fill_clone(n, &5u32).as_ptr() as usize, n.wrapping_mul(4), 4)),
+                (4, true) => b.try_alloc_slice_fill_clone(n, &5u32).ok().map(|s| (s.as_ptr() as usize, s.len().wrapping_mul(4), 4)),
+                (5, f) => {
+                    let src: &[()] = unsafe { std::slice::from_raw_parts(NonNull::<()>::dangling().as_ptr(), n) };
+                    if f {
+                        b.try_alloc_slice_copy(src).ok().map(|s| (s.as_ptr() as usize, if s.len() == n { 0 } else { usize::MAX }, 1))
+                    } else {
+                        let s = b.alloc_slice_copy(src);
+                        Some((s.as_ptr() as usize, if s.len() == n { 0 } else { usize::MAX }, 1))
+                    }
+                }
+                (_, false) => Some((b.alloc_slice_fill_iter((0..n).map(|i| i as u64)).as_ptr() as usize, n.wrapping_mul(8), 8)),
+                (_, true) => b.try_alloc_slice_fill_iter((0..n).map(|i| i as u64)).ok().map(|s| (s.as_ptr() as usize, s.len().wrapping_mul(8), 8)),
+            }
+        }));
+        let ev = self.end(rep, OpKind::Alloc);
+        let elem = [1usize, 8, 1, 3, 4, 0, 1, 8][which as usize % 8];
+        let true_size = (n as u128) * (elem as u128);
+        let out = match r {
+            Ok(Some((p, claimed, _al))) => {
+                rep.bump("c19.huge_ok");
+                if claimed == usize::MAX {
+                    rep.violate("C19", format!("C19/zst-slice-length-changed/{}", name), self.cur.clone());
+                } else if true_size > (64u128 << 20) || (claimed as u128) != true_size {
+                    // cannot possibly have been reserved under the 64 MiB allocator cap
+                    rep.violate("C19", format!("C19/impossible-size-accepted/{}", name), format!("true size {:#x} bytes, returned ptr {:#x} claiming {:#x} ({})", true_size, p, claimed, self.cur));
+                } else if claimed > 0 {
+                    let held = self.chunks.iter().any(|c| c.base <= p && p + claimed <= c.base + c.size - self.k);
+                    if !held {
+                        rep.violate("C19", format!("C19/claimed-extent-not-held/{}", name), format!("[{:#x},+{:#x}) ({})", p, claimed, self.cur));
+                    } else {
+                        // really reserved (below the cap): track it like any block
+                        let id = self.next_id;
+                        let exp = pat_bytes(id, claimed);
+                        if self.register(rep, p as *mut u8, claimed, 1, exp.clone(), None, "huge").is_some() {
+                            unsafe { fill(p as *mut u8, &exp) };
+                        }
+                    }
+                }
+                Outcome::Ok
+            }
+            Ok(None) => {
+                rep.bump("c19.huge_err");
+                if !fallible {
+                    rep.violate("C19", "C19/harness-logic", "infallible returned None".to_string());
+                }
+                self.check_unchanged_after_failure(rep, &before, name);
+                let _ = cap_before;
+                Outcome::Err
+            }
+            Err(_) => {
+                rep.bump("c19.huge_panic");
+                let msg = last_panic();
+                if fallible {
+                    rep.violate("C09", format!("C09/try-method-panicked/huge:{}/{}", name, normalise_msg(&msg)), format!("{} ({})", msg, self.cur));
+                } else if classify_panic(&msg) == PanicClass::Other {
+                    rep.violate("C19", format!("C19/unexpected-panic/huge:{}/{}", name, normalise_msg(&msg)), format!("{} ({})", msg, self.cur));
+                }
+                self.check_unchanged_after_failure(rep, &before, name);
+                Outcome::Panic
+            }
+        };
+        self.after_op(rep, OpKind::Alloc, &ev);
+        self.tr(&[40, out as u64]);
+        out
+    }
+
+    /// C09: when a request fails the arena holds exactly the memory it held before and a request
+    /// that fitted before still fits (capacity not reduced).
+    pub fn check_unchanged_after_failure(&mut self, rep: &mut Report, before: &Observed, what: &str) {
+        let now = self.observe();
+        if now.chunks.len() != before.chunks.len() || now.abim != before.abim {
+            rep.violate("C09", format!("C09/failure-changed-held-memory/{}", what), format!("chunks {} -> {}, abim {} -> {} ({})", before.chunks.len(), now.chunks.len(), before.abim, now.abim, self.cur));
+        } else if now.cap < before.cap {
+            rep.violate("C09", format!("C09/failure-consumed-capacity/{}", what), format!("capacity {} -> {} ({})", before.cap, now.cap, self.cur));
+        }
+        rep.bump("c09.failure_state_checks");
     }
 }
